@@ -107,9 +107,9 @@ var computeObserver atomic.Pointer[func(detail string)]
 
 // observedCompute is s.Compute with the usual factory (added = adds, deleted = the elements of dels the factory sees in the
 // set); `window`, if not nil, runs between the factory's reading and its answer.
-func observedCompute(s ds.Set[E], adds, dels []E, window func()) ds.SetMutations[E] {
+func observedCompute(s ds.Set[E], adds, dels []E, window func()) (applied ds.SetMutations[E], seenDel []E) {
 	dm := toMap(dels)
-	var seenDel, absentAdds []E
+	var absentAdds []E
 	m := s.Compute(func(rs ds.ReadableSet[E]) ds.SetMutations[E] {
 		del := rs.Filter(func(e E) bool { return dm[e] })
 		seenDel = del.ToSlice()
@@ -134,7 +134,12 @@ func observedCompute(s ds.Set[E], adds, dels []E, window func()) ds.SetMutations
 		}
 	}
 
-	return m
+	return m, seenDel
+}
+
+// computeSawText is the history text of an observed Compute: kind;adds;dels;seen;added;deleted.
+func computeSawText(adds, dels, seen []E, m ds.SetMutations[E]) string {
+	return fmt.Sprintf("computesaw;%s;%s;%s;%s;%s", commaList(adds), commaList(dels), commaList(seen), commaList(m.AddedElements().ToSlice()), commaList(m.DeletedElements().ToSlice()))
 }
 
 // observeComputes installs the observer for the duration of a schedule without non-applyMutex writers.
@@ -341,6 +346,7 @@ func (w *world) inside(bulk, pair string) string {
 	go guard(func() {
 		inv := seq.Add(1)
 		var m ds.SetMutations[E]
+		var seen []E
 		kind := "apply"
 		switch bulk {
 		case "applyadd":
@@ -350,10 +356,13 @@ func (w *world) inside(bulk, pair string) string {
 		default:
 			kind = "compute"
 			// the factory's reading of the set, then the window, then its answer
-			m = observedCompute(s, adds, dels, gate)
+			m, seen = observedCompute(s, adds, dels, gate)
 		}
 		ret := seq.Add(1)
 		calls[0] = hcall{inv, ret, fmt.Sprintf("%s;%s;%s;%s;%s", kind, commaList(adds), commaList(dels), commaList(m.AddedElements().ToSlice()), commaList(m.DeletedElements().ToSlice()))}
+		if kind == "compute" {
+			calls[0].text = computeSawText(adds, dels, seen, m)
+		}
 	})
 	go guard(func() {
 		defer bDone.Store(true)
@@ -547,7 +556,7 @@ func (w *world) history(init []E, s ds.Set[E], calls []hcall, seq *atomic.Int64)
 	if !linearizableGo(init, all) {
 		kinds := map[string]bool{}
 		for _, c := range calls {
-			kinds[strings.SplitN(c.text, ";", 2)[0]] = true
+			kinds[strings.TrimSuffix(strings.SplitN(c.text, ";", 2)[0], "saw")] = true
 		}
 		var ks []string
 		for _, k := range []string{"add", "del", "has", "apply", "compute", "replace", "addall", "delall"} {
@@ -601,9 +610,9 @@ func runCop(s ds.Set[E], c cop, api *serix.API) string {
 
 		return fmt.Sprintf("apply;%s;%s;%s;%s", commaList(c.a), commaList(c.d), commaList(m.AddedElements().ToSlice()), commaList(m.DeletedElements().ToSlice()))
 	case "compute":
-		m := observedCompute(s, c.a, c.d, nil)
+		m, seen := observedCompute(s, c.a, c.d, nil)
 
-		return fmt.Sprintf("compute;%s;%s;%s;%s", commaList(c.a), commaList(c.d), commaList(m.AddedElements().ToSlice()), commaList(m.DeletedElements().ToSlice()))
+		return computeSawText(c.a, c.d, seen, m)
 	case "replace":
 		return fmt.Sprintf("replace;%s;%s", commaList(c.a), commaList(s.Replace(&parkSet{Set: ds.NewSet(c.a...), yield: true}).ToSlice()))
 	case "addall":
